@@ -21,6 +21,11 @@ FUNCS = ['optiland.surfaces.standard_surface.Surface._trace_real', 'optiland.geo
 EPS = 1e-7      # concrete replay: checks the zeroth- and first-order coefficients (eps^2 terms are below float resolution)
 
 
+def sym_setup():
+    from symopt import jet
+    jet.set_order(3)      # one spare order: a quotient of two series vanishing at eps = 0 loses one order of accuracy
+
+
 def series(ctx, *coeffs):
     """a0 + a1 eps + a2 eps^2 ... : Jet in sym mode, the number at eps = 1e-3 in the concrete replay"""
     if ctx.sym:
@@ -38,6 +43,9 @@ def oblige_series(ctx, name, value, want):
         if not v.finite():
             ctx.oblige(f'{name}:finite', False)
             return
+        if v.p < len(want):
+            from symopt.sv import PathEnd
+            raise PathEnd('jet', 'series not known to the order of the obligation')
         for k, w in enumerate(want):
             ctx.oblige(f'{name}:eps^{k}', ctx.eq(v.a[k], w))
     else:
@@ -110,27 +118,31 @@ def h1_step(ctx, kind):
     oblige_series(ctx, 'x_stays_zero', ctx.val(s.x), [0.0, 0.0, 0.0])
     # optical path: axial distance to first order in eps (no first-order term)
     oblige_series(ctx, 'opd', ctx.val(s.opd), [n1 * d, 0.0])
+    ctx.observe('d', d)
 
 
 def cases_system(tier):
     out = [dict(K=1, stop=1, ray='marginal', obj='inf'), dict(K=1, stop=1, ray='chief', obj='inf'),
-           dict(K=2, stop=1, ray='marginal', obj='inf'), dict(K=2, stop=2, ray='chief', obj='inf')]
+           dict(K=2, stop=1, ray='marginal', obj='inf'), dict(K=2, stop=1, ray='marginal', obj='inf', mirror=True)]
     if tier == 'thorough':
-        out += [dict(K=2, stop=2, ray='marginal', obj='inf'), dict(K=2, stop=1, ray='chief', obj='inf'),
+        out += [dict(K=2, stop=2, ray='chief', obj='inf'), dict(K=2, stop=2, ray='chief', obj='inf', edit=True),
+                dict(K=2, stop=2, ray='marginal', obj='inf'), dict(K=2, stop=1, ray='chief', obj='inf'),
                 dict(K=1, stop=1, ray='marginal', obj='finite'), dict(K=2, stop=2, ray='marginal', obj='finite')]
     return out
 
 
-@harness('C05', 'H2_system', cases=cases_system, funcs=FUNCS, timeout=1500,
+@harness('C05', 'H2_system', cases=cases_system, funcs=FUNCS, timeout=400,
          bounds='real Optic with K=1..2 spherical surfaces (symbolic R, t > 0, n), stop first or second, object at infinity (thorough: '
                 'finite); marginal-type ray: pupil coordinate eps, field 0; chief-type ray: maximum field eps*theta, pupil 0',
          doc='real-ray height / eps at every surface (through generate_rays and the whole sequential trace) tends to the paraxial '
              'marginal resp. chief ray with vanishing second-order term; the chief-type ray tends to the centre of the stop; the real '
              'axial focus tends to the paraxial back focal position')
-def h2_system(ctx, K, stop, ray, obj):
-    L = Lens(ctx, K, (), stop, obj, tpos=True)
+def h2_system(ctx, K, stop, ray, obj, mirror=False, edit=False):
+    L = Lens(ctx, K, ((K,) if mirror else ()), stop, obj, tpos=True)
     for t_ in L.t:
         ctx.assume(t_ > 0)       # surfaces are separated (with zero separation a ray has to travel backwards to the next vertex plane)
+    if mirror:
+        L.t[K - 1] = -L.t[K - 1]     # behind the mirror the light travels towards -z
     epd = ctx.real('epd', lo=0.1, hi=10.0)
     if ray == 'marginal':
         o = L.build(aperture=('EPD', epd), field_type='angle', fields=(0.0, 5.0))
@@ -146,9 +158,15 @@ def h2_system(ctx, K, stop, ray, obj):
         arrP = oarr([P]) if not isinstance(P, float) else ctx.arr(P)
     else:
         arrP = np.array([float(P)])
+    if edit:
+        # a history: analyse / trace the lens, then change the glass in front of the stop, then trace again
+        o.trace_generic(0.0, H, ctx.arr(0.0), arrP, 0.55)
+        o.paraxial.EPL()
+        o.set_index(ctx.real('n_new', lo=1.0, hi=4.0), 1)
     o.trace_generic(0.0, H, ctx.arr(0.0), arrP, 0.55)
     sg = o.surface_group
     real_y = [ctx.val(v) for v in sg.y]      # (read before the paraxial queries: they re-use the per-surface records)
+    real_t = [ctx.val(m_) / ctx.val(n_) for m_, n_ in zip(sg.M, sg.N)]
     if ray == 'marginal':
         ya, ua = o.paraxial.marginal_ray()
     else:
@@ -168,6 +186,19 @@ def h2_system(ctx, K, stop, ray, obj):
         else:
             want = [0.0, float(par) / EPS, 0.0] if ray == 'chief' else [0.0, par, 0.0]
         oblige_series(ctx, f'height_{k}', yk, want)
+        if k <= K:
+            pu = ctx.val(ua[k])
+            if ctx.sym:
+                from symopt.jet import Jet
+                pj = Jet.of(pu)
+                wu = [pj.a[0], pj.a[1], 0.0] if ray == 'chief' else [0.0, pu, 0.0]
+            else:
+                wu = [0.0, float(pu) / EPS, 0.0] if ray == 'chief' else [0.0, pu, 0.0]
+            if ctx.finite(real_t[k]):
+                oblige_series(ctx, f'tangent_{k}', real_t[k], wu)
+    ctx.observe('t1', L.t[0])     # (schedules the concrete validation run of this path: the obligations are then also evaluated
+    #                                on the unpatched code with eps = 1e-7, which also sees effects the symbolic run cannot, e.g. caches
+    #                                keyed on raw array bytes)
     if ray == 'chief':
         oblige_series(ctx, 'passes_stop_centre', real_y[stop], [0.0, 0.0, 0.0])
     else:
